@@ -13,6 +13,8 @@
 (*   RetReturn  what the lookup returned to its caller is what it observed    *)
 (*   DumpFile   the file loads back as exactly the shard contents at the      *)
 (*              moment each shard was locked by that dump                     *)
+(*   DumpFinal  a dump into the same file with nothing else going on loads    *)
+(*              back as what the cache holds                                  *)
 EXTENDS Integers, Sequences, FiniteSets, TLC, Json
 Trace == ndJsonDeserialize("trace.ndjson")
 NShards == 32
@@ -20,14 +22,16 @@ CanWrite(w, r) == w = 0 /\ r = {}
 CanRead(w) == w = 0
 
 VARIABLES l, wr, rd, map, lastobs, snap,
-          ann     \* per goroutine: the version it is announcing and whether the cache has held it since the call
-tvars == <<l, wr, rd, map, lastobs, snap, ann>>
+          ann,    \* per goroutine: the version it is announcing and whether the cache has held it since the call
+          hist    \* per shard: every content the shard has had since the running dump was called
+tvars == <<l, wr, rd, map, lastobs, snap, ann, hist>>
 Ev == Trace[l]
 Keys == {Trace[i].k : i \in {j \in 1..Len(Trace) : Trace[j].k # ""}}
 TraceInit == /\ l = 1 /\ wr = [s \in 1..NShards |-> 0] /\ rd = [s \in 1..NShards |-> {}]
              /\ map = [k \in Keys |-> [s |-> 0, v |-> 0]]       \* key -> shard it lives in, version (0 = absent)
              /\ lastobs = [g \in {} |-> 0] /\ snap = [s \in 1..NShards |-> <<>>]
              /\ ann = [g \in {} |-> [v |-> 0, ok |-> TRUE]]
+             /\ hist = [s \in 1..NShards |-> {{}}]
              /\ TLCSet(1, 1)
 Is(e) == l <= Len(Trace) /\ Ev.ev = e /\ l' = l + 1
 Put(f, g, v) == [x \in DOMAIN f \cup {g} |-> IF x = g THEN v ELSE f[x]]
@@ -36,40 +40,51 @@ Put(f, g, v) == [x \in DOMAIN f \cup {g} |-> IF x = g THEN v ELSE f[x]]
 (* the cache's freedom from deadlock under writer-preferring RWMutexes                                               *)
 Holds(g) == \E s \in 1..NShards : wr[s] = g \/ g \in rd[s]
 InsLocked == /\ Is("InsLocked") /\ CanWrite(wr[Ev.s], rd[Ev.s]) /\ ~Holds(Ev.g)
-             /\ wr' = [wr EXCEPT ![Ev.s] = Ev.g] /\ UNCHANGED <<rd, map, lastobs, snap, ann>>
+             /\ wr' = [wr EXCEPT ![Ev.s] = Ev.g] /\ UNCHANGED <<rd, map, lastobs, snap, ann, hist>>
 InsDone == /\ Is("InsDone") /\ wr[Ev.s] = Ev.g /\ Ev.v > 0
            /\ map' = [map EXCEPT ![Ev.k] = [s |-> Ev.s, v |-> Ev.v]]
            /\ ann' = IF Ev.g \in DOMAIN ann /\ ann[Ev.g].v = Ev.v THEN [ann EXCEPT ![Ev.g].ok = TRUE] ELSE ann
            /\ wr' = [wr EXCEPT ![Ev.s] = 0] /\ UNCHANGED <<rd, lastobs, snap>>
+           /\ hist' = [hist EXCEPT ![Ev.s] = @ \cup {{<<k, IF k = Ev.k THEN Ev.v ELSE map[k].v>> :
+                                                          k \in {x \in Keys : (x = Ev.k \/ (map[x].s = Ev.s /\ map[x].v > 0))}}}]
 RetLocked == /\ Is("RetLocked") /\ CanRead(wr[Ev.s]) /\ ~Holds(Ev.g)
-             /\ rd' = [rd EXCEPT ![Ev.s] = @ \cup {Ev.g}] /\ UNCHANGED <<wr, map, lastobs, snap, ann>>
+             /\ rd' = [rd EXCEPT ![Ev.s] = @ \cup {Ev.g}] /\ UNCHANGED <<wr, map, lastobs, snap, ann, hist>>
 RetDone == /\ Is("RetDone") /\ Ev.g \in rd[Ev.s]
            /\ Ev.v = map[Ev.k].v
            /\ rd' = [rd EXCEPT ![Ev.s] = @ \ {Ev.g}]
            /\ ann' = IF Ev.g \in DOMAIN ann /\ ann[Ev.g].v = Ev.v THEN [ann EXCEPT ![Ev.g].ok = TRUE] ELSE ann
-           /\ lastobs' = Put(lastobs, Ev.g, Ev.v) /\ UNCHANGED <<wr, map, snap>>
+           /\ lastobs' = Put(lastobs, Ev.g, Ev.v) /\ UNCHANGED <<wr, map, snap, hist>>
 RetReturn == /\ Is("RetReturn") /\ Ev.g \in DOMAIN lastobs /\ lastobs[Ev.g] = Ev.v
-             /\ UNCHANGED <<wr, rd, map, lastobs, snap, ann>>
+             /\ UNCHANGED <<wr, rd, map, lastobs, snap, ann, hist>>
 (* an announcement that has been processed is in force: between its call and its return the announcing goroutine *)
 (* inserted that version, or found it in the cache already (a repeated, unchanged template need not be written)  *)
 AnnCall == /\ Is("AnnCall") /\ ann' = Put(ann, Ev.g, [v |-> Ev.v, ok |-> FALSE])
-           /\ UNCHANGED <<wr, rd, map, lastobs, snap>>
+           /\ UNCHANGED <<wr, rd, map, lastobs, snap, hist>>
 AnnReturn == /\ Is("AnnReturn") /\ Ev.g \in DOMAIN ann /\ ann[Ev.g].v = Ev.v /\ ann[Ev.g].ok
-             /\ UNCHANGED <<wr, rd, map, lastobs, snap, ann>>
+             /\ UNCHANGED <<wr, rd, map, lastobs, snap, ann, hist>>
 (* contents of shard s: the set of <<key, version>> living there *)
 ShardContent(s) == {<<k, map[k].v>> : k \in {x \in Keys : map[x].s = s /\ map[x].v > 0}}
 DumpLocked == /\ Is("DumpLocked") /\ CanRead(wr[Ev.s]) /\ ~Holds(Ev.g)
               /\ rd' = [rd EXCEPT ![Ev.s] = @ \cup {Ev.g}]
               /\ snap' = [snap EXCEPT ![Ev.s] = <<ShardContent(Ev.s)>>]
-              /\ UNCHANGED <<wr, map, lastobs, ann>>
+              /\ UNCHANGED <<wr, map, lastobs, ann, hist>>
 DumpDone == /\ Is("DumpDone") /\ Ev.g \in rd[Ev.s]
-            /\ rd' = [rd EXCEPT ![Ev.s] = @ \ {Ev.g}] /\ UNCHANGED <<wr, map, lastobs, snap, ann>>
+            /\ rd' = [rd EXCEPT ![Ev.s] = @ \ {Ev.g}] /\ UNCHANGED <<wr, map, lastobs, snap, ann, hist>>
 KeyName(n) == "k" \o ToString(n)
 Items(s) == {<<KeyName(Ev.items[i][2]), Ev.items[i][3]>> : i \in {j \in 1..Len(Ev.items) : Ev.items[j][1] = s}}
-DumpFile == /\ Is("DumpFile")
-            /\ \A s \in 1..NShards : snap[s] # <<>> /\ Items(s) = snap[s][1]
+(* the dump is called: from here on every content a shard has is remembered - a dump that finds a shard unchanged may *)
+(* keep what the file already holds for it, but what it leaves is a content the shard had DURING this dump            *)
+DumpCall == /\ Is("DumpCall") /\ hist' = [s \in 1..NShards |-> {ShardContent(s)}]
             /\ snap' = [s \in 1..NShards |-> <<>>] /\ UNCHANGED <<wr, rd, map, lastobs, ann>>
-TraceNext == AnnCall \/ AnnReturn \/ InsLocked \/ InsDone \/ RetLocked \/ RetDone \/ RetReturn \/ DumpLocked \/ DumpDone \/ DumpFile
+DumpFile == /\ Is("DumpFile")
+            /\ \A s \in 1..NShards : IF snap[s] # <<>> THEN Items(s) = snap[s][1] ELSE Items(s) \in hist[s]
+            /\ snap' = [s \in 1..NShards |-> <<>>] /\ UNCHANGED <<wr, rd, map, lastobs, ann, hist>>
+(* a dump made while nothing else is going on leaves a file that loads back as what the cache holds NOW - whatever *)
+(* it wrote, skipped or kept from the dump before                                                                  *)
+DumpFinal == /\ Is("DumpFinal")
+             /\ \A s \in 1..NShards : wr[s] = 0 /\ rd[s] = {} /\ Items(s) = ShardContent(s)
+             /\ snap' = [s \in 1..NShards |-> <<>>] /\ UNCHANGED <<wr, rd, map, lastobs, ann, hist>>
+TraceNext == DumpCall \/ DumpFinal \/ AnnCall \/ AnnReturn \/ InsLocked \/ InsDone \/ RetLocked \/ RetDone \/ RetReturn \/ DumpLocked \/ DumpDone \/ DumpFile
 TraceSpec == TraceInit /\ [][TraceNext]_tvars
 Mark == TLCSet(1, IF TLCGet(1) < l THEN l ELSE TLCGet(1))
 Accepted == \/ TLCGet(1) = Len(Trace) + 1
